@@ -107,8 +107,8 @@ def rule_b(ctx, ix):
     if f is None:
         raise AnalysisError('Data._set_up_coordinate_component_links vanished')
     s = f.self_name
-    loops = [n for n in walk_no_nested(f.node) if isinstance(n, ast.For)]
-    if len(loops) != 1 or 'range(' not in unparse(loops[0].iter):
+    loops = [n for n in walk_no_nested(f.node) if isinstance(n, ast.For) and 'range(' in unparse(n.iter)]
+    if len(loops) != 1:
         raise AnalysisError('_set_up_coordinate_component_links: per-axis loop not recognised')
     lp = loops[0]
     i = unparse(lp.target)
@@ -137,8 +137,20 @@ def rule_b(ctx, ix):
         ctx.ob(R, f.construct + ' coords', 'the link uses the dataset\'s own coordinate object', X(c.args[2]) == '%s.coords' % s,
                detail='a coordinate link is built with %s' % unparse(c.args[2]), where=where(f, c), nontrivial=False)
     apps = [c for c in calls_in(lp) if call_name(c) == 'append']
+    # two appends, or one append in a loop over the pair of links just made
+    napp = 0
+    pm_b = parent_map(f.node)
+    for c in apps:
+        inner = pm_b.get(id(c))
+        while inner is not None and inner is not lp and not isinstance(inner, ast.For):
+            inner = pm_b.get(id(inner))
+        if isinstance(inner, ast.For) and inner is not lp:
+            src = expand_locals(f.node, inner.iter)
+            napp += len(src.elts) if isinstance(src, (ast.Tuple, ast.List)) else 0
+        else:
+            napp += 1
     st = [x for x in walk_no_nested(f.node) if isinstance(x, ast.Assign) and unparse(x.targets[0]) == '%s._coordinate_links' % s]
-    ctx.ob(R, f.construct + ' stored', 'both links of every axis are recorded', len(apps) == 2 and len(st) == 1,
+    ctx.ob(R, f.construct + ' stored', 'both links of every axis are recorded', napp == 2 and len(st) == 1,
            detail='the created links are not all recorded in _coordinate_links', where=f.where)
     # the link class stores what it was given
     ccl = ix.cls('glue.core.component_link.CoordinateComponentLink')
